@@ -23,8 +23,11 @@ spec fn f_finite(x: f64) -> bool { !f_is_nan(x) && !f_is_inf(x) }
 #[verifier::external_body] proof fn axiom_lt_not_nan(a: f64, b: f64) requires f_lt(a, b) ensures !f_is_nan(a), !f_is_nan(b) {}
 pub assume_specification [ f64::is_nan ] (x: f64) -> (r: bool) ensures r == f_is_nan(x);
 pub assume_specification [ f64::is_infinite ] (x: f64) -> (r: bool) ensures r == f_is_inf(x);
-pub assume_specification [ f64::min ] (a: f64, b: f64) -> f64;
-pub assume_specification [ f64::max ] (a: f64, b: f64) -> f64;
+// min / max are functions of their operands (uninterpreted): enough to pin WHICH values the extremes are refreshed from
+pub uninterp spec fn f_min(a: f64, b: f64) -> f64;
+pub uninterp spec fn f_max(a: f64, b: f64) -> f64;
+pub assume_specification [ f64::min ] (a: f64, b: f64) -> (r: f64) ensures r == f_min(a, b);
+pub assume_specification [ f64::max ] (a: f64, b: f64) -> (r: f64) ensures r == f_max(a, b);
 
 // `(0.0..=1.0).contains(&rank)`: the documented argument range of quantile (floats stay uninterpreted)
 pub uninterp spec fn f_in_unit(x: f64) -> bool;
@@ -556,7 +559,9 @@ self . do_merge ( tmp , self . buffer . len ( ) as u64 ) }
     fn do_merge ( & mut self , mut buffer : Vec < Centroid > , weight : u64 ) requires old ( self ) . cfg_ok ( ) , wsum ( old ( self ) . centroids @ ) == old ( self ) . centroids_weight , buffer @ . len ( ) >= 1 , wsum ( buffer @ ) == weight , old ( self ) . centroids_weight + weight <= u64 :: MAX , ensures final ( self ) . cfg_ok ( ) , final ( self ) . same_cfg ( old ( self ) ) ,
 /*@C10.centroids_weight_adds*/ final ( self ) . centroids_weight == old ( self ) . centroids_weight + weight ,
 /*@C10.weights_conserved*/ wsum ( final ( self ) . centroids @ ) == final ( self ) . centroids_weight ,
-/*@C10.buffer_cleared*/ final ( self ) . buffer @ . len ( ) == 0 , 1 <= final ( self ) . centroids @ . len ( ) <= buffer @ . len ( ) + old ( self ) . centroids @ . len ( ) , {
+/*@C10.buffer_cleared*/ final ( self ) . buffer @ . len ( ) == 0 , 1 <= final ( self ) . centroids @ . len ( ) <= buffer @ . len ( ) + old ( self ) . centroids @ . len ( ) ,
+/*@C10.min_is_extreme*/ final ( self ) . min == f_min ( old ( self ) . min , final ( self ) . centroids @ [ 0 ] . mean ) ,
+/*@C10.max_is_extreme*/ final ( self ) . max == f_max ( old ( self ) . max , final ( self ) . centroids @ [ final ( self ) . centroids @ . len ( ) - 1 ] . mean ) , {
 let ghost b0 = buffer @ ;
 let ghost c0 = self . centroids @ ;
 proof {
